@@ -235,3 +235,227 @@ func c18FirstStmt(b *ast.BlockStmt) ast.Stmt {
 	}
 	return b.List[0]
 }
+
+// ---------------------------------------------------------------- shape of the control flow
+//
+// emitC18Shape reads what the Clean model hard-codes about the control flow of the three functions:
+// the order of the top-level steps of CleanStorage (lock, deferred unlock, interval check, staples,
+// certificates, record), which error branches abandon the function (return) and which go on
+// (continue), the emptiness test and the Stat guard before the site-folder Delete, the PEM block type.
+// Proofs.consts_shape_ok compares them with what the model does.
+
+func init() { items = append(items, emitC18Shape) }
+
+// c18After finds, in any statement list of fd, an assignment whose right-hand side is a call of fun
+// (exprStr form, e.g. "storage.Load") with first-after-ctx argument arg ("" = any) and returns the
+// statement that follows it.
+func c18After(fd *ast.FuncDecl, fun, arg string) (next []ast.Stmt) {
+	ast.Inspect(fd.Body, func(n ast.Node) bool {
+		bs, ok := n.(*ast.BlockStmt)
+		if !ok {
+			return true
+		}
+		for i, st := range bs.List {
+			as, ok := st.(*ast.AssignStmt)
+			if !ok || len(as.Rhs) != 1 {
+				continue
+			}
+			call, ok := as.Rhs[0].(*ast.CallExpr)
+			if !ok || exprStr(call.Fun) != fun {
+				continue
+			}
+			if arg != "" {
+				found := false
+				for _, a := range call.Args {
+					if exprStr(a) == arg {
+						found = true
+					}
+				}
+				if !found {
+					continue
+				}
+			}
+			if i+1 < len(bs.List) {
+				next = append(next, bs.List[i+1])
+			} else {
+				next = append(next, nil)
+			}
+		}
+		return true
+	})
+	return next
+}
+
+// c18Leaves classifies how the body of an if statement ends: "return", "continue" or "".
+func c18Leaves(st ast.Stmt) string {
+	is, ok := st.(*ast.IfStmt)
+	if !ok || is.Body == nil || len(is.Body.List) == 0 || is.Else != nil {
+		return ""
+	}
+	switch l := is.Body.List[len(is.Body.List)-1].(type) {
+	case *ast.ReturnStmt:
+		return "return"
+	case *ast.BranchStmt:
+		if l.Tok == token.CONTINUE {
+			return "continue"
+		}
+	}
+	return ""
+}
+
+func c18HasCall(n ast.Node, fun string) bool {
+	found := false
+	ast.Inspect(n, func(x ast.Node) bool {
+		if c, ok := x.(*ast.CallExpr); ok && exprStr(c.Fun) == fun {
+			found = true
+		}
+		return true
+	})
+	return found
+}
+
+func emitC18Shape(t *tr) {
+	cs, ds, de := t.funcs["CleanStorage"], t.funcs["deleteOldOCSPStaples"], t.funcs["deleteExpiredCerts"]
+	if cs == nil || ds == nil || de == nil || cs.Body == nil || ds.Body == nil || de.Body == nil {
+		t.errf("C18 shape: CleanStorage / deleteOldOCSPStaples / deleteExpiredCerts not found")
+		return
+	}
+	t.p("\n(* C18: control-flow shape of storage cleaning (maintain.go) *)\n")
+	// 1. top-level steps of CleanStorage in source order
+	var steps []string
+	for _, st := range cs.Body.List {
+		name := ""
+		switch x := st.(type) {
+		case *ast.IfStmt:
+			switch {
+			case x.Init != nil && c18HasCall(x.Init, "acquireLock"):
+				name = "lock"
+			case x.Init != nil && c18HasCall(x.Init, "storage.Store"):
+				name = "record"
+			case exprStr(x.Cond) == "opts.OCSPStaples" && c18HasCall(x.Body, "deleteOldOCSPStaples"):
+				name = "staples"
+			case exprStr(x.Cond) == "opts.ExpiredCerts" && c18HasCall(x.Body, "deleteExpiredCerts"):
+				name = "certs"
+			default:
+				if be, ok := x.Cond.(*ast.BinaryExpr); ok && exprStr(be.X) == "opts.Interval" && c18HasCall(x.Body, "storage.Load") {
+					name = "interval"
+				}
+			}
+		case *ast.DeferStmt:
+			if c18HasCall(x, "releaseLock") {
+				name = "defer_unlock"
+			}
+		}
+		if name != "" {
+			steps = append(steps, name)
+			continue
+		}
+		for _, f := range []string{"storage.Load", "storage.Store", "storage.Delete", "storage.List", "storage.Stat", "storage.Lock", "storage.Unlock", "acquireLock", "releaseLock", "deleteOldOCSPStaples", "deleteExpiredCerts"} {
+			if c18HasCall(st, f) {
+				t.errf("CleanStorage: unexpected top-level statement calling %s", f)
+			}
+		}
+	}
+	var parts []string
+	for _, s := range steps {
+		parts = append(parts, coqStr(s))
+	}
+	t.p("Definition clean_steps : list str := [%s]. (* %q *)\n", strings.Join(parts, "; "), steps)
+	// 2. error branches
+	leave := func(fd *ast.FuncDecl, fun, arg, what string) string {
+		nx := c18After(fd, fun, arg)
+		if len(nx) != 1 || nx[0] == nil {
+			t.errf("%s: expected exactly one `... := %s(..%s..)` followed by a statement, found %d", fd.Name.Name, fun, arg, len(nx))
+			return ""
+		}
+		l := c18Leaves(nx[0])
+		if l == "" {
+			t.errf("%s: the statement after %s (%s) is not an if ending in return/continue", fd.Name.Name, fun, what)
+		}
+		return l
+	}
+	b := func(s string) string {
+		if s == "return" {
+			return "true"
+		}
+		return "false"
+	}
+	l1 := leave(ds, "storage.Load", "key", "staple load error")
+	l2 := leave(de, "storage.Load", "assetKey", "certificate load error")
+	l3 := leave(de, "pem.Decode", "certFile", "no PEM block")
+	l4 := leave(de, "x509.ParseCertificate", "", "x509 parse error")
+	l5 := leave(de, "storage.Delete", "siteKey", "site folder delete error")
+	if l1 != "" && l2 != "" && l3 != "" && l4 != "" && l5 != "" {
+		t.p("Definition clean_staple_load_error_aborts : bool := %s. (* %s *)\n", b(l1), l1)
+		t.p("Definition clean_crt_errors_abort : list bool := [%s; %s; %s]. (* Load error: %s; no CERTIFICATE block: %s; x509 error: %s *)\n", b(l2), b(l3), b(l4), l2, l3, l4)
+		t.p("Definition clean_folder_delete_error_aborts : bool := %s. (* %s *)\n", b(l5), l5)
+	}
+	// the three listings of deleteExpiredCerts below the first and the second site listing: continue; first listings: return nil
+	nl := c18After(de, "storage.List", "")
+	var ls []string
+	for _, st := range nl {
+		if st == nil {
+			ls = append(ls, "")
+			continue
+		}
+		ls = append(ls, c18Leaves(st))
+	}
+	if len(ls) != 4 || ls[0] != "return" || ls[1] != "continue" || ls[2] != "continue" || ls[3] != "continue" {
+		t.errf("deleteExpiredCerts: expected 4 storage.List calls whose error branches end in return, continue, continue, continue; found %q", ls)
+	} else {
+		t.p("Definition clean_list_errors_abort : list bool := [true; false; false; false]. (* certificates: return nil; issuer, site, site again: continue *)\n")
+	}
+	// 3. PEM block type, emptiness test, Stat guard
+	var pemType, empty []string
+	guard := 0
+	ast.Inspect(de.Body, func(n ast.Node) bool {
+		is, ok := n.(*ast.IfStmt)
+		if !ok {
+			return true
+		}
+		if be, ok := is.Cond.(*ast.BinaryExpr); ok {
+			if be.Op == token.LOR {
+				if l, ok := be.X.(*ast.BinaryExpr); ok && exprStr(l.X) == "block" && exprStr(l.Y) == "nil" && l.Op == token.EQL {
+					if r, ok := be.Y.(*ast.BinaryExpr); ok && exprStr(r.X) == "block.Type" && r.Op == token.NEQ {
+						if s, ok := c18Lit(r.Y); ok {
+							pemType = append(pemType, s)
+						}
+					}
+				}
+				if is.Init != nil && c18HasCall(is.Init, "storage.Stat") {
+					if l, ok := be.X.(*ast.BinaryExpr); ok && exprStr(l.X) == "err" && exprStr(l.Y) == "nil" && l.Op == token.NEQ &&
+						exprStr(be.Y) == "info.IsTerminal" && c18Leaves(is) == "continue" {
+						if as, ok := is.Init.(*ast.AssignStmt); ok && len(as.Rhs) == 1 {
+							if c, ok := as.Rhs[0].(*ast.CallExpr); ok && len(c.Args) == 2 && exprStr(c.Args[1]) == "siteKey" {
+								guard++
+							}
+						}
+					}
+				}
+			}
+			if exprStr(be.X) == "len(...)" {
+				if c := be.X.(*ast.CallExpr); len(c.Args) == 1 && exprStr(c.Args[0]) == "siteAssets" {
+					if bl, ok := be.Y.(*ast.BasicLit); ok && bl.Value == "0" && c18Cmp[be.Op] != "" {
+						empty = append(empty, c18Cmp[be.Op])
+					}
+				}
+			}
+		}
+		return true
+	})
+	if len(pemType) != 1 {
+		t.errf("deleteExpiredCerts: expected exactly one `block == nil || block.Type != \"...\"`, found %q", pemType)
+	} else {
+		t.p("Definition clean_pem_type : str := %s. (* block.Type != %q *)\n", coqStr(pemType[0]), pemType[0])
+	}
+	if len(empty) != 1 {
+		t.errf("deleteExpiredCerts: expected exactly one `len(siteAssets) <op> 0`, found %q", empty)
+	} else {
+		t.p("Definition clean_folder_empty_cmp : cmp_op := %s. (* len(siteAssets) <op> 0 *)\n", empty[0])
+	}
+	if guard != 1 {
+		t.errf("deleteExpiredCerts: expected exactly one `if info, err := storage.Stat(ctx, siteKey); err != nil || info.IsTerminal { continue }`, found %d", guard)
+	} else {
+		t.p("Definition clean_folder_guard : bool := true. (* Stat error or terminal key: the folder is left alone *)\n")
+	}
+}
